@@ -271,6 +271,10 @@ impl Ctx {
         let threads = std::env::var("VERIF_THREADS").ok().and_then(|s| s.parse().ok()).unwrap_or_else(|| {
             std::thread::available_parallelism().map(|n| n.get()).unwrap_or(8).min(16)
         });
+        // diagnostic builds (coverage instrumentation, sanitizers) run many times slower: the limit can be raised for them
+        if let Some(ms) = std::env::var("VERIF_WATCHDOG_MS").ok().and_then(|s| s.parse::<u64>().ok()) {
+            WATCH_LIMIT_MS.store(ms.max(30_000), Ordering::Relaxed);
+        }
         start_watchdog(prop);
         install_quiet_panic_hook();
         Ctx {
